@@ -445,6 +445,7 @@ func classifyH(c CaseH) core.Class {
 			phase = "after-edit"
 		}
 		cl.Labels = append(cl.Labels, "req:"+phase+":"+kind, "aim:"+op.Aim)
+		cl.Labels = append(cl.Labels, unicodeReqLabels(*op.Req, v)...)
 		if edits > 0 && served > 0 {
 			// the interesting shape: served something, edited, and now a request whose fate the edit decides
 			if op.Aim == "previous" || v.MustAdmit {
